@@ -50,14 +50,39 @@ func closeFailure(out string) string {
 	return "other:" + errClass(out)
 }
 
-// splitOp separates the operation from the recorded observations ("op args ; obs").
+// splitOp separates the operation from the recorded observations ("op args ; obs [h=<hash>]"). The optional last
+// token h=<16 hex> is the FNV-1a hash of the implementation's full answer line when the line was recorded.
 func splitOp(line string) (op []string, obs []string) {
+	op, obs, _ = splitOpH(line)
+	return
+}
+
+func splitOpH(line string) (op []string, obs []string, h string) {
 	parts := strings.SplitN(line, ";", 2)
 	op = strings.Fields(parts[0])
 	if len(parts) == 2 {
 		obs = strings.Fields(parts[1])
+		if n := len(obs); n > 0 && strings.HasPrefix(obs[n-1], "h=") {
+			h = obs[n-1][2:]
+			obs = obs[:n-1]
+		}
 	}
 	return
+}
+
+// fnv64 is FNV-1a over the bytes of s (the Lean driver computes the same).
+func fnv64(s string) string {
+	h := uint64(14695981039346656037)
+	for i := 0; i < len(s); i++ {
+		h ^= uint64(s[i])
+		h *= 1099511628211
+	}
+	return fmt.Sprintf("%016x", h)
+}
+
+// record: the operation line as the histories store it: operation ; observed status and amounts ; hash of the answer.
+func record(op []string, res, answer string) string {
+	return strings.Join(op, " ") + " ; " + res + " h=" + fnv64(answer)
 }
 
 func (x *world) provider(kind string, i int) (*actor, int) {
